@@ -1587,35 +1587,26 @@ def gen_for_block(node, code, codegen):
     gen_code_for_conv(var_type, node.to_expr, code, codegen)
     code.add(('storel', to_var))
 
-    # make sure the range is compatible with the step value (by
-    # checking if (to - from) has the same sign as step value). if
-    # not, skip the loop.
+    # the loop goes on while var <= to (step >= 0) or var >= to
+    # (step < 0). the bounds are compared directly: (to - from) and
+    # the bounds multiplied by the sign of the step can be out of the
+    # variable's range (FOR i% = -30000 TO 30000).
+    up_label = codegen.get_label('for_up')
+    code.add(('_label', check_label))
     code.add(
-        (f'readl{type_char}', to_var),
-        (f'read{scope}{type_char}', var.name),
-        ('sub',),
         (f'readl{type_char}', step_sign_var),
-        ('mul',),
         (f'push{type_char}', 0),
+        ('cmp',),
+        ('lt',),
+        ('jz', up_label),
+        (f'read{scope}{type_char}', var.name),
+        (f'readl{type_char}', to_var),
         ('cmp',),
         ('ge',),
         ('jz', end_label),
-    )
-
-    # multiply "to" value with the step sign so that we can always use
-    # the same compare instruction
-    code.add(
-        (f'readl{type_char}', step_sign_var),
-        (f'readl{type_char}', to_var),
-        ('mul',),
-        (f'storel', to_var),
-    )
-
-    code.add(('_label', check_label))
-    code.add(
+        ('jmp', body_label),
+        ('_label', up_label),
         (f'read{scope}{type_char}', var.name),
-        (f'readl{type_char}', step_sign_var),
-        ('mul',),
         (f'readl{type_char}', to_var),
         ('cmp',),
         ('le',),
